@@ -140,8 +140,47 @@ func c17(r *core.Run) {
 	r.Assumptions = []string{"patterns handed to Matches/Values/replace are valid (documented precondition) except for the token-start rule, which the property states for all"}
 
 	r.Rule("G1", "token-start guard: every comparison of a pattern byte with '$', '*' or '>' has its wildcard edge under a token-start flag (tested before the comparison or immediately on its true edge) or applies to element 0 of a split token; exception Values, with the witness that its literal branch consumes a whole token in an inner loop", 12)
+	r.Rule("G4", "no position-blind wildcard search: library code never looks for '$', '*' or '>' with a strings/bytes search, split, count or replace function (which cannot know whether the hit is at the start of a token); prefix/suffix tests are anchored and allowed", 1)
 	r.Rule("G2", "character class: Pattern.IsValid, IsValidRID and isValidPart reject the same range (below 33, above 126) and each treats '?' specially", 3)
 	r.Rule("G3", "single pass: tag replacement scans the original pattern once; the result of a replacement is never the receiver of another replacement", 2)
+
+	// ---- G4 --------------------------------------------------------------
+	{
+		blind := map[string]bool{"Index": true, "IndexByte": true, "IndexRune": true, "IndexAny": true, "IndexFunc": false, "LastIndex": true, "LastIndexByte": true, "LastIndexAny": true,
+			"Contains": true, "ContainsRune": true, "ContainsAny": true, "Count": true, "Split": true, "SplitN": true, "SplitAfter": true, "SplitAfterN": true,
+			"Replace": true, "ReplaceAll": true, "Cut": true, "Trim": true, "TrimLeft": true, "TrimRight": true, "Fields": false}
+		nScan := 0
+		for _, rel := range []string{"", "store"} {
+			for _, fn := range p.FuncsOfPkg(rel) {
+				for _, c := range core.Calls(fn) {
+					cal := c.Common().StaticCallee()
+					if cal == nil || cal.Pkg == nil {
+						continue
+					}
+					pk := cal.Pkg.Pkg.Path()
+					if (pk != "strings" && pk != "bytes") || !blind[cal.Name()] {
+						continue
+					}
+					nScan++
+					for i, a := range c.Common().Args {
+						if i == 0 {
+							continue // the haystack
+						}
+						needle := ""
+						if sv, ok := core.ConstString(a); ok {
+							needle = sv
+						} else if k, ok := core.ConstInt(a); ok && k > 0 && k < 128 {
+							needle = string(rune(k))
+						}
+						if strings.ContainsAny(needle, "$*>") {
+							r.Bad("G4", core.FuncName(fn), "position-blind-search:"+cal.Name()+"("+fmt.Sprintf("%q", needle)+")", p.InstrPos(c), "a wildcard character is located with "+pk+"."+cal.Name()+", which also finds it in the middle of a token: this operation then gives '$', '*' or '>' wildcard meaning where the validator, matcher and mux treat it as a literal")
+						}
+					}
+				}
+			}
+		}
+		r.OK("G4", "pattern-operations", "no-position-blind-wildcard-search", "-", fmt.Sprintf("%d strings/bytes search calls scanned, none looks for a wildcard character", nScan))
+	}
 
 	// ---- G1 --------------------------------------------------------------
 	var scanners []*ssa.Function
